@@ -101,6 +101,7 @@ class Kernel:
         self.driver_sem = _real_threading.Semaphore(0)
         self.driver_thread = _real_threading.current_thread()
         self.on_idle = None  # callable(kernel, quiescent: bool) -> True if it injected work
+        self.on_finish = None  # snapshot hook, called once when the run ends (state still intact)
         self.on_step = None  # invariant hook, called after each executed event / switch
         self.progress = 0  # bumped by anything that is real progress (bytes, app steps)
         self.switches = 0
@@ -287,6 +288,11 @@ class Kernel:
                 for t in self.threads
             ]
             self.log("end", reason)
+            if self.on_finish is not None:
+                try:
+                    self.on_finish(self)
+                except Exception as e:  # noqa
+                    self.harness_error = "on_finish hook failed: %r" % (e,)
 
     def _handoff(self, me, nxt):
         self.switches += 1
